@@ -4,14 +4,16 @@ Static theorems: coq/theories/Props/C03.v (line-level linearity and rescale inva
 V/M transformation laws).  Per run: the shared translator obligations (coefficient formulas, kernel descriptors),
 correspondence of the drivers on rescaled and on superposed inputs against the Coq model, and the two property
 predicates evaluated directly on the implementation (1-5 populations, constants / functions of time, frozen /
-nomut flags), plus whole models built from the public API.
+nomut flags), plus whole models built from the public API.  The same predicates are evaluated again on sequences of calls made
+in ONE process in adversarial orders, every value compared with a pristine interpreter, together with a fail-closed obligation
+on the source (no module-level mutable state in the equilibrium densities, the time step, the mutation influx): c03_orders.py.
 """
 import json, math
 from fractions import Fraction
 from harness import lib, numgen
 from harness.lib import q
 from harness.numgen import HEADER
-from harness.props import c02, c02_translate
+from harness.props import c02, c02_translate, c03_orders
 
 TOL = Fraction(1, 10 ** 9)
 
@@ -84,6 +86,14 @@ def rescale_program(p, k):
     return r
 
 def run(ctx):
+    if ctx.replay:
+        rp = json.load(open(ctx.replay))
+        inp = rp.get('input') or {}
+        if isinstance(inp, dict) and 'sequence' in inp:      # a recorded call sequence: the same calls in the same order in one fresh process
+            ctx.rule = 'replay of the recorded call sequence'
+            c03_orders.replay(ctx, inp)
+            return
+        ctx.notes.append('replay file carries no call sequence: the full check is repeated')
     ctx.rule = ('driver cases as in C02 (1-5 populations; constants / constant functions / linear-in-time functions; frozen and nomut flags), each run at '
                 'reference-size factors c in {1/16,1/2,2,16} and a random dyadic c in [0.05,20], and as superpositions (a,b) of two densities and thetas; '
                 'whole-model programs (equilibrium, size change, split, migration, selection, pulse admixture, growth, third population, removal, sampling) '
@@ -124,6 +134,8 @@ def run(ctx):
         triples.append((a, bb, i1, i1 + 1, i1 + 2))
     for i, c in enumerate(cases):
         c['id'] = i
+    # the same predicates on sequences of calls in one process, in adversarial orders (c03_orders.py): started here, accounted for below
+    orders = c03_orders.start(ctx, base)
     res = lib.run_impl('c03_impl.py', cases, timeout=3000)
     byid = {r['id']: r for r in res}
     exprs = []
@@ -185,6 +197,9 @@ def run(ctx):
             ctx.violation('%d-population driver on rescaled parameters differs from the model (coq %r)' % (len(c['shape']), rr),
                           data={'case': {x: y for x, y in c.items() if not x.startswith('_')}, 'impl': c['_out']}, no_input=True,
                           broken='correspondence of the drivers with the Coq model (Model/SchemeCheck.v dcheck): the linearity / rescaling theorems are no longer shown to apply to this code; the predicates on the implementation found no failing input unless reported separately')
+    # --- the predicates on call sequences in one process (adversarial orders, every value against a pristine interpreter) and the
+    #     fail-closed source obligation (no module-level mutable state in phi_1D*, _compute_dt, _inject_mutations_*D)
+    c03_orders.finish(ctx, orders)
     # --- the equilibrium density itself, in every numerical regime of phi_1D (gamma = 0, weak, |gamma*nu| around and far
     #     beyond the 300 overflow guards, both signs, genic and general-h branches, beta != 1)
     eq = []
